@@ -232,8 +232,16 @@ func (fdef *reflectByField) elem() reflect.Value {
 }
 
 func (fdef *reflectByField) clear() error {
-	fdef.elem().FieldByIndex(fdef.f.Index).SetZero()
-	return nil
+	if fdef.f.Name != "" {
+		fdef.elem().FieldByIndex(fdef.f.Index).SetZero()
+		return nil
+	}
+	if fdef.setter.Name != "" {
+		// reached through accessors only (an empty field index would address - and zero - the
+		// whole struct): hand the setter the zero value of what it takes
+		return fdef.set(reflect.Zero(fdef.setter.Type.In(1)))
+	}
+	return fmt.Errorf("%s has no recognized way to clear value", fdef.m.Ident())
 }
 
 func (fdef *reflectByField) get() (reflect.Value, error) {
